@@ -97,6 +97,8 @@ func conv(o object.Object) any {
 			out[i] = conv(it)
 		}
 		return out
+	case *object.Map:
+		return map[string]any{"mapval": v.Size()}
 	case *object.Error:
 		return map[string]any{"errval": v.Value().Error()}
 	default:
